@@ -56,7 +56,11 @@ ASSUMPTIONS = [
     "schemas are created through Schema()/build_schema (validate_schema's documented precondition): type names are unique, references are closed",
     "model follows the tree WITH proposed_fixes/C13-S4-S6.patch; on the unfixed tree the labelled injections "
     "`implements_object` (S4), `bad_name_input_field` (S6) and names with a trailing newline (S7) are reported as property failures",
-    "`field.resolver = f` / `schema.default_resolver = f` assigned directly are outside the statement (not re-validated); not generated in histories",
+    "plain assignment of resolvers (`schema.default_resolver = f`, `type.default_resolver = f`, `field.resolver = f`, "
+    "`field.subscription_resolver = f`: documented in docs/usage/defining-resolvers.rst) is part of the histories; the model follows fix C13-HH1",
+    "limit of any signature-based rule: `functools.partial(f, v)` hides the positionally bound parameter from `inspect.signature` although "
+    "an argument of that name still collides at call time — such (argument, partial) pairs are left out of the call oracle",
+    "resolver callables enter the model as the signature of the callable ITSELF (`follow_wrapped=False`): fix C13-HH2",
     "model and spec follow the tree WITH proposed_fixes C13-H7, C13-H1-H2-H3-H9, C13-H4-H5-H6, C13-H8 (each behind a flag re-extracted "
     "from the source: the model stays exact on trees where only some are applied); on the unpatched tree the hunt findings are reported as property failures",
     "model follows the tree WITH proposed_fixes/C13-T3b.patch (refusals of _replace_types_and_directives before any mutation, directives bust the caches); "
@@ -87,11 +91,44 @@ NOT_CALLABLE = "!not-callable"
 
 
 def make_resolver(sig):
-    """A callable with exactly the parameter list `sig` (text); NOT_CALLABLE: a plain string object."""
+    """A callable described by `sig`:
+         "<params>"                      a plain function with exactly that parameter list
+         "wraps:<outer>|<inner>"         `functools.wraps(inner)(outer)`: the executor calls OUTER
+         "partial:<params>|<n>|<kw,..>"  `functools.partial(f, *n values, **kw)`
+         "method:<params>"               a bound method `obj.m` of `def m(self, <params>)`
+         "instance:<params>"             an object whose class defines `__call__(self, <params>)`
+         "class:<params>"                a class whose `__init__(self, <params>)` is what a call runs
+         NOT_CALLABLE                    a plain string object
+       Every generated callable is marked `_c13_generated` (safe to call: the semantic oracle really calls it)."""
+    import functools
     if sig == NOT_CALLABLE:
         return "not callable"
-    fn = eval("lambda %s: None" % sig, {})
-    fn._c13_generated = True        # safe to call: the semantic oracle really calls it
+    kind, _, rest = sig.partition(":")
+    if kind == "wraps":
+        outer_s, inner_s = rest.split("|")
+        inner = eval("lambda %s: None" % inner_s, {})
+        fn = functools.wraps(inner)(eval("lambda %s: None" % outer_s, {}))
+    elif kind == "partial":
+        params, n, kws = rest.split("|")
+        base = eval("lambda %s: None" % params, {})
+        fn = functools.partial(base, *([0] * int(n)), **{k: 0 for k in kws.split(",") if k})
+    elif kind in ("method", "instance", "class"):
+        ns = {}
+        name = {"method": "m", "instance": "__call__", "class": "__init__"}[kind]
+        exec("class K:\n    def %s(self%s): return None\n" % (name, (", " + rest) if rest.strip() else ""), ns)
+        K = ns["K"]
+        if kind == "class":
+            K._c13_generated = True
+            return K
+        obj = K() if kind == "instance" or "__init__" not in K.__dict__ else K()
+        if kind == "instance":
+            obj._c13_generated = True
+            return obj
+        K.m._c13_generated = True
+        return obj.m
+    else:
+        fn = eval("lambda %s: None" % sig, {})
+    fn._c13_generated = True
     return fn
 
 
@@ -531,6 +568,22 @@ def uncallable_resolvers(schema):
                     if callable(fn):
                         return None
                     continue                 # not callable at all: nothing to inspect (fix H9)
+                try:
+                    import inspect
+                    inspect.signature(fn, follow_wrapped=False)
+                except (ValueError, TypeError):
+                    continue                 # nothing to inspect (e.g. an ill-formed partial): the rule is silent by design
+                import functools
+                if isinstance(fn, functools.partial) and fn.args:
+                    # `inspect.signature` of a partial HIDES the parameters bound positionally, yet a keyword of that
+                    # name still collides at call time: no signature-based rule can see it (limit of the rule, stated)
+                    try:
+                        hidden = [p.name for p in inspect.signature(fn.func, follow_wrapped=False).parameters.values()
+                                  if p.kind in (p.POSITIONAL_ONLY, p.POSITIONAL_OR_KEYWORD)][:len(fn.args)]
+                    except (ValueError, TypeError):
+                        hidden = []
+                    if any(a.python_name in hidden for a in f.arguments):
+                        return None          # no judgement on this schema
                 always = [a.python_name for a in f.arguments if a.required or a.has_default_value]
                 optional = [a.python_name for a in f.arguments if not (a.required or a.has_default_value)]
                 if len(set(always + optional)) != len(always + optional) or len(optional) > 6:
@@ -2263,10 +2316,22 @@ def stream_resolver_signatures(ctx, batch):
         if ctx.time_left() < 12:
             break
         sig = gen_signature(rng)
+        form = rng.choice(["plain", "plain", "plain", "wraps", "wraps", "partial", "method", "instance", "class"])
+        if form == "wraps":
+            # wider / narrower / unrelated outer signature around the generated inner one (and the reverse)
+            outer = rng.choice(["root, ctx, info, **kw", "*a, **kw", "root, ctx, info", "root, ctx", gen_signature(rng)])
+            sig = "wraps:%s|%s" % ((outer, sig) if rng.random() < 0.7 else (sig, outer))
+        elif form == "partial":
+            n = rng.choice([0, 0, 1])
+            kws = rng.choice(["", "", "x", "z", "info"])
+            sig = "partial:%s|%d|%s" % (sig, n, kws)
+        elif form != "plain":
+            sig = "%s:%s" % (form, sig)
         try:
             make_resolver(sig)
-        except SyntaxError:
+        except (SyntaxError, TypeError, ValueError):
             continue
+        ctx.stat("signature-form:" + form)
         args = []
         for a in rng.sample(["x", "y", "info", "root", "args", "kwargs", "z", "ctx"], rng.randint(0, 3)):
             mode = rng.choice(["req", "opt", "dflt"])
@@ -2301,8 +2366,15 @@ def gen_history(rng, desc, length):
         good = good_sig(rng, f)
         bad = rng.choice(["root, ctx", "root, ctx, info, zz_extra", "root", "root, ctx, info"])
         sig = good if rng.random() < 0.55 else bad
-        if r < 0.34:
+        if r < 0.30:
             ops.append({"op": "validate"})
+        elif r < 0.44:
+            # documented plain assignment: schema / type / field level (+ the field's subscription resolver)
+            level = rng.choice([0, 1, 2, 2, 3])
+            asig = sig if level >= 2 else rng.choice(["root, ctx, info, **kw", "*a, **kw", "root, ctx", "root", "root, ctx, info"])
+            if rng.random() < 0.2:
+                asig = "wraps:%s|%s" % (rng.choice(["root, ctx, info, **kw", "root, ctx"]), asig)
+            ops.append({"op": "assign", "level": level, "type": t["name"], "field": f["name"], "sig": asig, "reuse": rng.random() < 0.15})
         elif r < 0.62:
             tn, fn = t["name"], f["name"]
             q = rng.random()
@@ -2343,6 +2415,17 @@ def gen_history(rng, desc, length):
     return ops
 
 
+class _Skip(Exception):
+    pass
+
+
+def verdict_cached(schema):
+    """Would `schema.validate()` return without validating? (`_verdict_is_current` once the cache tracks the
+    resolver callables, the bare flag before)"""
+    cur = getattr(schema, "_verdict_is_current", None)
+    return bool(cur()) if cur is not None else schema._is_valid is True
+
+
 def run_history_real(schema, ops):
     """Execute ops on the live schema; returns (trace, model_ops)."""
     from py_gql.exc import SchemaValidationError, UnknownType, SchemaError
@@ -2372,6 +2455,27 @@ def run_history_real(schema, ops):
                 mop.update({"type": op["type"], "field": op["field"], "resolver": canon_schema.dump_resolver(fn),
                             "allow_override": op["allow_override"], "same": same})
                 getattr(schema, k)(op["type"], op["field"], fn, allow_override=op["allow_override"])
+            elif k == "assign":
+                key = ("assign", op["level"], op["type"], op["field"])
+                fn = last_fn.get(key) if op.get("reuse") and key in last_fn else make_resolver(op["sig"])
+                last_fn[key] = fn
+                t = schema.types.get(op["type"])
+                fld = t.field_map.get(op["field"]) if isinstance(t, ObjectType) else None
+                if fld is None:     # the target went away with an earlier replace request: nothing is assigned
+                    mop.update({"level": op["level"], "type": op["type"], "field": op["field"],
+                                "resolver": canon_schema.dump_resolver(fn), "same": True})
+                    raise _Skip()
+                cur = [schema.default_resolver, t.default_resolver, fld.resolver, fld.subscription_resolver][op["level"]]
+                mop.update({"level": op["level"], "type": op["type"], "field": op["field"],
+                            "resolver": canon_schema.dump_resolver(fn), "same": cur is fn})
+                if op["level"] == 0:
+                    schema.default_resolver = fn
+                elif op["level"] == 1:
+                    t.default_resolver = fn
+                elif op["level"] == 2:
+                    fld.resolver = fn
+                else:
+                    fld.subscription_resolver = fn
             elif k == "register_default_resolver":
                 fn = make_resolver(op["sig"])
                 mop.update({"type": op["type"], "resolver": canon_schema.dump_resolver(fn), "allow_override": op["allow_override"]})
@@ -2429,6 +2533,8 @@ def run_history_real(schema, ops):
                     pass
                 if deleting:
                     mop["healed"] = dump(schema)
+        except _Skip:
+            outcome = "ok"
         except SchemaValidationError:
             outcome = "SchemaValidationError"
         except UnknownType:
@@ -2441,7 +2547,7 @@ def run_history_real(schema, ops):
             outcome = "internal:" + type(e).__name__
         if k == "replace_types" and outcome.startswith("internal"):
             # healing after deletions is C14's subject: the history ends here
-            trace.append({"outcome": outcome, "cached": schema._is_valid is True, "fresh_valid": None})
+            trace.append({"outcome": outcome, "cached": verdict_cached(schema), "fresh_valid": None})
             mops.append(mop)
             break
         if k == "replace_types" and outcome != "ok" and not _REPLACE_ATOMIC[0]:
@@ -2449,12 +2555,12 @@ def run_history_real(schema, ops):
             # the model comparison ends with this step, the direct oracle goes on
             nomodel = True
         if nomodel:
-            trace.append({"outcome": outcome, "cached": schema._is_valid is True,
+            trace.append({"outcome": outcome, "cached": verdict_cached(schema),
                           "fresh_valid": real_validate(schema)[0] == "valid", "nomodel": True})
             mops.append(mop)
             continue
         fresh_valid = real_validate(schema)[0] == "valid"
-        trace.append({"outcome": outcome, "cached": schema._is_valid is True, "fresh_valid": fresh_valid})
+        trace.append({"outcome": outcome, "cached": verdict_cached(schema), "fresh_valid": fresh_valid})
         mops.append(mop)
     return trace, mops
 
@@ -2492,7 +2598,7 @@ def stream_histories(ctx, batch):
             if rep:
                 ops = [{"op": "validate"}, rep[0], {"op": "validate"}]
         start = dump(s)
-        cached0 = s._is_valid is True      # build_schema validates while building
+        cached0 = verdict_cached(s)      # build_schema validates while building
         trace, mops = run_history_real(s, ops)
         ctx.count()
         regs_between = sum(1 for a in ops[1:-1] if a["op"] != "validate")
